@@ -115,6 +115,43 @@ func runC10(t *rapid.T, prop string) {
 		}
 	}
 
+	if simkit.Chance(t, "dense", 1, 25) {
+		// a densely populated level: (nearly) every value of one key byte occurs under a common prefix, so that one
+		// 8-bit subtree is (nearly) full - 256 nodes is the most its one-byte node count can describe
+		base := append([]byte(nil), pool[0]...)
+		pos := simkit.Int(t, "densepos", 0, keyLen-1)
+		missing := simkit.Int(t, "densemissing", 0, 2)
+		var keys, vals [][]byte
+		rec := smtOp{Op: fmt.Sprintf("dense(byte %d, %d of 256 values under %x)", pos, 256-missing, base[:pos])}
+		for b := missing; b < 256; b++ {
+			k := append([]byte(nil), base...)
+			k[pos] = byte(b)
+			keys = append(keys, k)
+			vals = append(vals, newVal())
+			if !seen[string(k)] {
+				seen[string(k)] = true
+				if b%16 == 0 || b > 250 {
+					pool = append(pool, k)
+				}
+			}
+		}
+		store.begin()
+		nr, err := tr.Update(store, keys, vals)
+		if err != nil {
+			fail("update", "error", "Update of a dense level returned %v", err)
+		}
+		store.commit()
+		root = append([]byte(nil), nr...)
+		for j, k := range keys {
+			model[string(k)] = vals[j]
+		}
+		hist = append(hist, rec)
+		simkit.Probe("dense_level")
+		checkRoot("dense level")
+		if simkit.Bool(t, "densereopen") {
+			tr = smt.NewTrie(root, keyLen)
+		}
+	}
 	nOps := simkit.Int(t, "nops", 1, 14)
 	for i := 0; i < nOps; i++ {
 		switch op := simkit.Int(t, "op", 0, 9); {
